@@ -137,7 +137,9 @@ def gen_responses(ns, rng, case):
     cls = qc.LinkLayerOKTypeM if okm else qc.LinkLayerOKTypeK
     creator = case["call"] in CREATE_CALLS
     pool = rng.sample(range(100, 100000), 12 * n)
-    phys = rng.sample(range(0, 1000), n)  # physical qubit ids: distinct among the live pairs
+    # physical qubit ids: distinct among the live pairs and none of the low addresses the controller itself hands
+    # to freshly allocated (memory) qubits
+    phys = rng.sample(range(50, 1000), n)
     out = []
     for i in range(n):
         d = {}
@@ -145,7 +147,7 @@ def gen_responses(ns, rng, case):
             d[f] = pool[i * 12 + j]
         d["type"] = (qc.ReturnType.OK_M if okm else qc.ReturnType.OK_K).value
         d["directionality_flag"] = 0 if creator else 1
-        d["purpose_id"] = case["sock"]
+        d["purpose_id"] = case.get("purpose", case["sock"])   # what the stack's get_purpose_id returns for (remote, socket)
         d["remote_node_id"] = case["node"]
         d["bell_state"] = rng.choice([m.value for m in qc.BellState])
         if okm:
@@ -171,8 +173,10 @@ def run_case(repo, ns, case, executor="rec"):
     res.request = res.arr = res.qlink = res.qlink_obj = res.error = res.handles = None
     call, kw = case["call"], kw_to_py(ns, case["kw"])
     okm = resp_is_m(call)
+    hw = case.get("hardware", "generic")   # generic | nv | nvswap (generic config + NV transpiler: the Builder swaps it)
     pipe = Pipeline(repo, peers={"Bob": case["node"]}, node_id=case.get("own_node", 0), executor=executor,
-                    hardware=case.get("hardware", "generic"), max_qubits=case.get("max_qubits", 5))
+                    hardware="nv" if hw == "nv" else "generic", use_transpiler=hw in ("nv", "nvswap"),
+                    max_qubits=case.get("max_qubits", 5))
     res.pipe = pipe
     sock = pipe.epr_socket("Bob", epr_socket_id=case["sock"], remote_epr_socket_id=case.get("remote_sock", 0))
     resps = [make_response(ns, okm, v, case.get("resp_format", "native")) for v in case["resp"]]
@@ -281,6 +285,9 @@ def check_handles(ns, case, handles):
     n = len(case["resp"])
     rs = [dict(zip(cls._fields, v)) for v in case["resp"]]
     names = {v: k for k, v in {"Bob": case["node"], "Alice": case.get("own_node", 0)}.items()}
+    if case.get("peers"):
+        names = {v: k for k, v in case["peers"].items()}
+        names[case.get("own_node", 0)] = "Alice"
     if not okm:
         if len(handles["qubits"]) != n:
             bad.append(f"{len(handles['qubits'])} qubit handles for {n} pairs")
@@ -345,3 +352,68 @@ def check_qlink_obj(ns, case, obj):
         if getattr(rb, "name", None) != (case["kw"].get("random_basis_remote") or "NONE"):
             bad.append(f"qlink request .random_basis_remote = {rb!r}")
     return bad
+
+
+# ---------------------------------------------------------------- several sockets in one program
+PURPOSE_FUNCS = {
+    "identity": lambda remote, sock: sock,
+    "remote16": lambda remote, sock: 16 * remote + sock,
+    "swap": lambda remote, sock: 8 * (7 - sock) + remote,
+}
+
+
+def run_scenario(repo, ns, scen):
+    """scen: dict(purpose=<name in PURPOSE_FUNCS>, own_node, peers={name: node id},
+    sockets=[dict(remote=<name>, sock=<local id>, remote_sock=<id>)], flush_each=bool,
+    ops=[dict(socket=<index>, call, kw, resp=[value lists])]).  One connection, the operations in sequence.
+    Returns per-op dicts(request, handles, bookkeeping) and an error string."""
+    qc = ns.qc
+    f = PURPOSE_FUNCS[scen["purpose"]]
+    pipe = Pipeline(repo, peers=dict(scen["peers"]), node_id=scen["own_node"], max_qubits=scen.get("max_qubits", 8))
+    stack = pipe.executor.network_stack
+    stack.get_purpose_id = lambda remote_node_id, epr_socket_id: f(remote_node_id, epr_socket_id)
+    socks = [pipe.epr_socket(sd["remote"], epr_socket_id=sd["sock"], remote_epr_socket_id=sd.get("remote_sock", 0))
+             for sd in scen["sockets"]]
+    out = dict(ops=[dict(request=None, handles=None, bookkeeping=None) for _ in scen["ops"]], error=None)
+    responses = []
+    for k, op in enumerate(scen["ops"]):
+        okm = resp_is_m(op["call"])
+        rs = [make_response(ns, okm, v, op.get("resp_format", "native")) for v in op["resp"]]
+        if rs:
+            def peek(ex, first=rs[0], k=k, call=op["call"]):
+                table = ex._epr_recv_requests if call in RECV_CALLS else ex._epr_create_requests
+                out["ops"][k]["bookkeeping"] = sorted((list(key), d.tot_pairs) for key, v in table.items() for d in v)
+                return first
+            responses += [peek] + rs[1:]
+    pipe.responses = responses
+    try:
+        with pipe.connection(epr_sockets=socks) as conn:
+            pending = []
+            for k, op in enumerate(scen["ops"]):
+                sock = socks[op["socket"]]
+                kw = kw_to_py(ns, op["kw"])
+                nreq = len(pipe.requests)
+                infos = qubits = meas = None
+                if op["call"] == "create_keep":
+                    qubits = sock.create_keep(**kw)
+                elif op["call"] == "recv_keep":
+                    qubits = sock.recv_keep(**kw)
+                else:
+                    meas = getattr(sock, op["call"])(**kw)
+                pending.append((k, qubits, infos, meas, nreq))
+                if scen.get("flush_each", True) or k == len(scen["ops"]) - 1:
+                    conn.flush()
+                    base = pending[0][4]
+                    creates = [p for p in pending if scen["ops"][p[0]]["call"] in CREATE_CALLS]
+                    for j, (kk, *_rest) in enumerate(creates):
+                        if base + j < len(pipe.requests):
+                            out["ops"][kk]["request"] = canon_request(pipe.requests[base + j])
+                    for kk, qs, inf, ms, _n in pending:
+                        out["ops"][kk]["handles"] = read_handles(ns, conn, qs, inf, ms)
+                        for q in qs or []:
+                            q.measure()     # make room for the next operation
+                    conn.flush()
+                    pending = []
+    except Exception as e:  # noqa
+        out["error"] = type(e).__name__ + ": " + (str(e).splitlines()[0][:200] if str(e) else "")
+    return out
